@@ -168,16 +168,22 @@ def build_harness(pid):
     h = os.path.join(VERIF, "harness")
     os.makedirs(BUILD, exist_ok=True)
     tag = hashlib.sha1(REPO.encode()).hexdigest()[:8]
-    modfile = os.path.join(BUILD, "harness_%s.mod" % tag)
-    with Lock("go_" + tag):
-        tmpl = open(os.path.join(h, "go.mod.tmpl")).read().replace("@REPO@", REPO)
-        if not os.path.exists(modfile) or open(modfile).read() != tmpl:
-            open(modfile, "w").write(tmpl)
-        shutil.copy(os.path.join(REPO, "go.sum"), modfile[:-4] + ".sum")
-        mine = os.path.join(BUILD, "vh.%d" % os.getpid())
+    # one module file per process: `go build -mod=mod` may rewrite it, concurrent checks must not share it
+    modfile = os.path.join(BUILD, "harness_%s_%d.mod" % (tag, os.getpid()))
+    tmpl = open(os.path.join(h, "go.mod.tmpl")).read().replace("@REPO@", REPO)
+    open(modfile, "w").write(tmpl)
+    shutil.copy(os.path.join(REPO, "go.sum"), modfile[:-4] + ".sum")
+    mine = os.path.join(BUILD, "vh.%d" % os.getpid())
+    try:
         rc, out, err, dt = run(["go", "build", "-modfile=" + modfile, "-tags", "verif", "-o", mine, "./cmd/" + pid.lower()], cwd=h, env=GOENV, timeout=900)
-        if rc == 0:
-            return True, mine, out + err
+    finally:
+        for f in (modfile, modfile[:-4] + ".sum"):
+            try:
+                os.remove(f)
+            except OSError:
+                pass
+    if rc == 0:
+        return True, mine, out + err
     return False, None, out + err
 
 
